@@ -5,6 +5,8 @@
 #![allow(clippy::all)]
 
 mod c09;
+mod c18;
+mod c20;
 mod refcodec;
 mod util;
 
@@ -54,6 +56,9 @@ fn main() {
     let t0 = std::time::Instant::now();
     let (st, rule): (Stats, &str) = match cmd.as_str() {
         "c09" => c09::run(&p),
+        "c18" => c18::run(&p),
+        "c20" => c20::run(&p),
+        "noop" => (Stats::new(), "noop"),
         "replay-c09" => (c09::replay(p.get("input").unwrap_or("")), "replay"),
         other => {
             eprintln!("unknown sub-command {other}");
